@@ -17,6 +17,7 @@ RULE = (
     "parse(A) ++ shifted paragraph; B starts in column 0; seam not list+list / code+code. Oracle: block tokens and inline content "
     "(children excluded) of A+'\\n'+B equal those of A followed by those of B with maps shifted. Non-trivial = admissible pair where "
     "A ends in a container/list and B is not a plain paragraph; distinct by (conf id, A, B)."
+    " Also systematic: ~85 trace-leaving documents / delicate constructs / construct-vs-near-miss lines crossed with each other on four configurations, chains of them, and boundary-value documents as A."
 )
 ASSUMPTIONS = ["children excluded because reference definitions legitimately act document-wide (as the property states)"]
 
